@@ -249,6 +249,7 @@ def mapMExcept {α β} (f : α → Except Err β) : List α → Except Err (List
 `yParity = none` is `y_parity=None` -/
 def possiblePublicPairsForSignature (c : CurveParams) (bf : Int) (value r s : Int) (yParity : Option Int) :
     Except Err (List Pt) :=
+  if r ≥ c.p then .ok [] else
   match pointsForX c r with
   | .error e => if e.isValueError then .ok [] else .error e
   | .ok (q0, q1) =>
